@@ -75,6 +75,13 @@ def scoped_state_rule(ctx, rule: str, class_filter=None):
             scoped_consts = {repr(i[2].value.value) for i in items if i[3] and i[4] and isinstance(i[2], (ast.Assign, ast.AnnAssign))}
             raw_nonconst = any((not i[4]) and (not i[3]) for i in items)
             ok = const and not raw_nonconst and repr(val.value) not in scoped_consts
+            if not ok and const and not raw_nonconst and isinstance(val.value, bool):
+                # test-and-clear latch: `if self.flag: self.flag = False` consumes a flag that a scope has set; the scope
+                # that set it restores the enclosing value on exit
+                fparents = {c: p for p in ast.walk(f.node) for c in ast.iter_child_nodes(p)}
+                g = fparents.get(st)
+                if isinstance(g, ast.If) and st in g.body and norm(g.test) == (f"self.{attr}" if val.value is False else f"not self.{attr}"):
+                    ok = True
             ctx.check(ok, rule, construct, st,
                       f"`{short(st, 70)}` changes traversal state `self.{attr}` outside `with context_setter(self)`: when visits nest (an object inside the object being visited) the enclosing value is lost instead of restored",
                       f, st, detail="one-shot latch (constants only)")
